@@ -22,6 +22,7 @@ type PkgInfo struct {
 	SSA       *ssa.Package
 	Contracts *ContractFile
 	Source    string // where the contract file was read from
+	Initial   bool   // named by the load patterns (function bodies are available)
 }
 
 type Engine struct {
@@ -80,7 +81,7 @@ func Load(repoDir, verifDir string, patterns []string) (*Engine, error) {
 		if len(p.GoFiles) > 0 {
 			dir = filepath.Dir(p.GoFiles[0])
 		}
-		pi := &PkgInfo{Path: p.PkgPath, Short: p.Name, Dir: dir, Types: p.Types, SSA: spkgs[i]}
+		pi := &PkgInfo{Path: p.PkgPath, Short: p.Name, Dir: dir, Types: p.Types, SSA: spkgs[i], Initial: true}
 		// contract file: in the repo, else the mirror under /verif/contracts
 		cand := []string{filepath.Join(dir, ContractFileName)}
 		if rel, err := filepath.Rel(repoDir, dir); err == nil {
